@@ -59,16 +59,16 @@ def stepC03 (st : St) (op : String) (got : String) : StepResult St :=
     | none => { st := st, expected := some "skip" }
     | some mk =>
       let mk' := if cuts == "c" ∧ !isCrash got then { mk with refText := some got } else mk
-      { st := { st with last := some mk' }, expected := some (modelRead mk.kind mk.w cuts),
+      { st := { st with last := some mk' }, expected := some (modelRead mk.kind mk.w cuts mk.segLens),
         spec := specRead mk cuts got (if cuts == "c" then "rd-contiguous" else "rd-segmented"),
-        cov := [if cuts == "c" then "rd-contiguous" else if cuts == "w" then "rd-wire1" else "rd-segmented"] }
+        cov := [if cuts == "c" then "rd-contiguous" else if cuts == "w" then "rd-wire1" else if cuts == "own" then "rd-own" else "rd-segmented"] }
   | ["mrd", b, cuts] =>
     match st.last, b.toNat? with
     | some mk, some bit =>
       if bit ≥ 8 * mk.w.length then { st := st, expected := some "skip" } else
       let w := mk.w.set (bit / 8) (Nat.xor (mk.w.getD (bit / 8) 0) (2 ^ (7 - bit % 8)))
       let st' := if cuts == "c" then { st with mref := some (bit, got) } else st
-      { st := st', expected := some (modelRead 'P' w cuts), cov := ["mrd"],
+      { st := st', expected := some (modelRead 'P' w cuts mk.segLens), cov := ["mrd"],
         spec := (if isCrash got then [⟨"no-panic-malformed", "mrd", s!"decoding bytes with bit {bit} flipped crashed (cuts {cuts}): {tk got 120}"⟩] else []) ++
                 (match st.mref with
                  | some (b0, ref) => if cuts ≠ "c" ∧ b0 == bit ∧ !isCrash got ∧ got ≠ ref then
@@ -91,7 +91,7 @@ def stepC03 (st : St) (op : String) (got : String) : StepResult St :=
     match st.last with
     | none => { st := st, expected := some "skip" }
     | some mk =>
-      { st := st, expected := some (modelRead 'P' mk.w cuts), spec := specRead mk cuts got "readpacket", cov := ["readpacket"] }
+      { st := st, expected := some (modelRead 'P' mk.w cuts mk.segLens), spec := specRead mk cuts got "readpacket", cov := ["readpacket"] }
   | [rdall] =>
     if rdall == "rdall" || rdall == "rdall2" then
       match st.last with
